@@ -18,12 +18,14 @@ CATALOGUES = {
         "S|A|ACGT", "S|B|*|LN:i:6", "S|C|*",
         "L|A|+|B|+|2M1D1M", "L|A|+|C|+|1M", "L|A|+|C|+|2M", "L|A|+|A|+|*", "L|A|+|A|-|*",
         "L|B|-|A|-|1M1I2M", "L|C|+|A|+|*", "L|B|+|C|-|*|ID:Z:l1", "L|B|+|C|-|3M",
+        "L|C|+|B|+|*|ID:Z:A", "C|A|+|C|+|0|*|ID:Z:p1", "S|1|*", "S|3|*", "L|1|+|3|+|*|ID:Z:2",
         "C|A|+|B|+|1|2M", "C|A|-|B|+|0|*|ID:Z:c1",
         "P|p1|A+,B+|2M1D1M", "P|p2|B-,A-|*", "P|p4|A+,B+,C-|*,*",
         "P|p5|A+,C+,A+|1M,*,*",
         "#| comment", "H|xx:i:1",
-    ], ids=["A", "B", "C", "p1", "p2", "l1", "c1", "zz"],
-        renames=[("A", "D"), ("A", "B"), ("B", "p1"), ("p1", "q"), ("l1", "l2"), ("C", "zz")],
+    ], ids=["A", "B", "C", "p1", "p2", "l1", "c1", "zz", "1", "3"], unused=True,
+        renames=[("A", "D"), ("A", "B"), ("B", "p1"), ("p1", "q"), ("l1", "l2"), ("C", "zz"), ("A", "4"), ("3", "5"),
+                 ("l1", "6"), ("p1", "9")],
         tagedits=[("A", "xx:i:5"), ("B", "LN:i:7"), ("p1", "yy:Z:a b"), ("l1", "RC:i:3")]),
     "gfa1s": dict(version="gfa1", lines=[
         "S|A|*", "S|B|*", "S|C|*",
@@ -40,10 +42,11 @@ CATALOGUES = {
         "O|o1|a+ b+", "O|o2|a+ e1+ b+", "O|o3|o2- c+", "O|o1|c+|xx:i:1",
         "U|u1|a e1 g1", "U|u2|u1 o1", "U|u1|c|yy:i:2", "U|u1|b|yy:i:3",
         "U|u3|u4", "U|u4|u3",
-        "X|custom|1", "S|o1|3|*",
+        "X|custom|1", "S|o1|3|*", "S|2|3|*", "E|7|a+|2+|0|1|2|3$|*",
         "# gfa2 comment", "H|TS:i:10",
-    ], ids=["a", "b", "c", "e1", "e4", "g1", "o1", "o2", "u1", "u3", "zz"],
-        renames=[("a", "d"), ("a", "b"), ("e1", "e9"), ("g1", "g9"), ("o1", "u1"), ("u1", "u2"), ("b", "e1")],
+    ], ids=["a", "b", "c", "e1", "e4", "g1", "o1", "o2", "u1", "u3", "zz", "2"], unused=True,
+        renames=[("a", "d"), ("a", "b"), ("e1", "e9"), ("g1", "g9"), ("o1", "u1"), ("u1", "u2"), ("b", "e1"),
+                 ("a", "8"), ("e1", "9"), ("2", "11")],
         tagedits=[("a", "xx:i:5"), ("e1", "yy:Z:a b"), ("u1", "yy:i:9"), ("o1", "xx:i:2"), ("g1", "zz:Z:q")]),
     "gfa2s": dict(version="gfa2", lines=[
         "S|a|4|*", "S|b|6|*",
@@ -97,6 +100,8 @@ def build_ops(cat):
     for ln in cat["lines"]:
         if ln[0] in "LCEGFOUP":
             ops.append(dict(k="disc", text=text_of(ln), id="", id2=""))
+    if cat.get("unused"):
+        ops.append(dict(k="unused", text="", id="", id2=""))
     for ident, tag in cat.get("tagedits", []):
         ops.append(dict(k="settag", text="H\t" + tag, id=ident, id2=""))
         ops.append(dict(k="deltag", text="H\t" + tag, id=ident, id2=""))
@@ -156,6 +161,8 @@ def apply_op(gfapy, gfa, op, version):
         gfa.add_line(op["text"])
     elif k == "load":
         return load_entry(gfapy, op, gfa)
+    elif k == "unused":
+        return ("unused", str(gfa.unused_name()))
     elif k == "query":
         from . import queries
         return ("answers", queries.run(gfapy, gfa, op["id"]), queries.run(gfapy, gfa, op["id"]))
@@ -231,7 +238,9 @@ def replay_one(job):
         signal.setitimer(signal.ITIMER_REAL, 5.0)
         try:
             ng = apply_op(gfapy, gfa, op, ver or (gfa._version))
-            if isinstance(ng, tuple):
+            if isinstance(ng, tuple) and ng[0] == "unused":
+                op = dict(op, id2=ng[1])
+            elif isinstance(ng, tuple):
                 a1, a2 = ng[1], ng[2]
                 prev = answers.get(op["id"])
                 qsame = 1 if (a1 == a2 and (prev is None or prev == a1)) else 0
@@ -244,7 +253,7 @@ def replay_one(job):
                     res, exc = "FOREIGN", ";".join(foreign[:4])
             elif ng is not None:
                 gfa = ng
-            if op["k"] != "query":
+            if op["k"] not in ("query", "unused"):
                 answers = {}
         except Timeout:
             res, exc = "FOREIGN", "timeout"
@@ -474,7 +483,7 @@ def doc_jobs(catname, n, nmut, seed, vlevel=1, kind="doc", cfgversion=None):
 
 CLAUSE_PROP = {
     "foreign": "C07", "stutter": "C08", "query-changed": "C10", "query-unrepeatable": "C10",
-    "res.notunique": "C09", "names": "C09", "lookup": "C09",
+    "res.notunique": "C09", "names": "C09", "lookup": "C09", "fresh": "C09",
     "res.version": "C13", "version": "C13",
     "lines": "C05", "res.refused": "C05", "res.accepted": "C05", "hdr": "C05",
     "virtual": "C03", "shadow": "C03",
